@@ -105,10 +105,11 @@ var tokenTables = [][]float64{
 }
 
 func init() {
+	defer checkTables()
 	// tokens 10..63 (used by the large documents of Gen_Doc): valid as longitude and latitude, increasing
 	for id := 10; id < 64; id++ {
 		tokenTables[0] = append(tokenTables[0], float64(id))
-		tokenTables[1] = append(tokenTables[1], -80+float64(id-10)*2.5)
+		tokenTables[1] = append(tokenTables[1], -80.03125+float64(id-10)*2.5) // offset keeps every value distinct from tokens 0..9
 		tokenTables[2] = append(tokenTables[2], 0.40625+float64(id-10)*0.125)
 	}
 }
@@ -418,4 +419,17 @@ func tokValue(dec *json.Decoder, table []float64) (AST, error) {
 		return AST{Tag: "z"}, nil
 	}
 	return AST{}, fmt.Errorf("unexpected token %v", t)
+}
+
+// checkTables panics if two token ids of one table denote the same float64 (ids must be recoverable from values)
+func checkTables() {
+	for ti, t := range tokenTables {
+		seen := map[uint64]int{}
+		for id, v := range t {
+			if j, dup := seen[math.Float64bits(v)]; dup {
+				panic(fmt.Sprintf("token table %d: ids %d and %d share value %v", ti, j, id, v))
+			}
+			seen[math.Float64bits(v)] = id
+		}
+	}
 }
